@@ -41,6 +41,27 @@ def OpaqueOK (E : Env) : Kind → Prop
   | .constrained c _ => OpaqueOK E c
   | _ => True
 
+/-- the conversion function of a case: a finite table of recorded `float()` / `Decimal()` results -/
+def tableConv (entries : List (Bool × Native × Option Tok)) (dec : Bool) (x : Native) : Option (Option Tok) :=
+  (entries.find? fun e => e.1 == dec && e.2.1 == x).map (·.2.2)
+
+/-- `OpaqueStable ⟨T, tableConv entries⟩ dec` for every `dec` that occurs in the table, decided on
+    the table (this is what both sides of the correspondence evaluate on every case): the empty
+    text is recorded and does not convert; the text of every recorded result is itself recorded,
+    and converts to nothing or to a value with the same text -/
+def opaqueStableOn (T : Tables) (entries : List (Bool × Native × Option Tok)) : Bool :=
+  (entries.all fun e => match tableConv entries e.1 (.str []) with
+                        | some none => true
+                        | _ => false) &&
+  entries.all fun e =>
+    match e.2.2 with
+    | none => true
+    | some t =>
+      match tableConv entries e.1 (.str (strip T (tokText t))) with
+      | none => false
+      | some none => true
+      | some (some t') => tokText t' == tokText t
+
 /-- no `int` that the code would print exceeds CPython's digit limit (KF-C04-a outside) -/
 def NoHuge (T : Tables) : Native → Bool
   | .int i => intFits T i
